@@ -11,6 +11,7 @@ import Lemmas.ArgparseTotal
 import Lemmas.ArgparseTokens
 import Lemmas.ArgparseRefine
 import Props.C17.Dispatch
+import Lemmas.ArgparseDispatchTotal
 namespace Cnfgen.C17
 open Cnfgen.Cli Cnfgen.Cli.AP Cnfgen.Gen
 
@@ -230,5 +231,60 @@ theorem dispatch_total_fragment_x (h : HelperSpec) (s : CliSpec) (hspec : specOf
   rcases dispatch_total h s hspec hs hstd argv hf with ⟨c, hc⟩ | he
   · exact Or.inl ⟨c, by rw [hx]; exact hr.1 c (ho ▸ hc)⟩
   · exact Or.inr (by rw [hx]; exact hr.2 (ho ▸ he))
+
+/-! ### (c) totality of the whole interpreter on every list of tokens -/
+
+/-- the inline helpers have the option tables their hand-written models assume -/
+theorem inline_tables_ok : (cliSpecs.filter (·.inline)).all inlineTableOK = true := by decide +kernel
+
+/-- the sub-commands for which `dispatch_total_all_tokens` is proved: standard options or inline.  The others are
+`php` (hand-written action) and the five that go through `compose_two_parsers`: for them `parser_total_all_tokens`
+and the correspondence. -/
+theorem commands_outside_total_x :
+    (cliSpecs.filter (fun s => s.supportedX && !(s.standard || s.inline))).map (·.name) =
+      ["op", "php", "subsetcard", "tseitin", "majcomp", "xorcomp"] := by decide +kernel
+
+/-- T-C17.5c (extended) TOTALITY ON EVERY LIST OF TOKENS.  For the 44 sub-commands with standard options or an
+inline body, EVERY token list (abbreviations, `=`, clusters, `--`, unknown options, `-h`, …), either tool: the
+extended interpreter answers with what is built (a library call / the inline formula), a CLIError, or the help exit.
+The only other answer is the TypeError that escapes `cli()` when a single-argument option holds the empty list —
+which happens only through CPython 3.12.1's removal of a lone `--` (`hasQuirk`; `cnfgen stone 2 pyramid 2
+--sparse=--`); never `unsupported`, never another exception. -/
+theorem dispatch_total_all_tokens (tool : String) (ord : List String → Nat) (s : CliSpec) (hs : s ∈ cliSpecs)
+    (hc : s.standard = true ∨ s.inline = true) (argv : List String) :
+    Answers s argv (dispatchSpecX tool ord s argv) := by
+  have hsx : s.supportedX = true := by
+    unfold CliSpec.supportedX CliSpec.supported
+    rcases hc with h | h <;> simp [h]
+  have hgood : ∀ o ∈ s.opts, goodOpt o = true :=
+    fun o ho => (List.all_eq_true.1 ((List.all_eq_true.1 all_options_modelled) s (List.mem_filter.2 ⟨hs, hsx⟩))) o ho
+  by_cases hin : s.inline = true
+  · exact dispatchX_total_inline tool ord s hin
+      ((List.all_eq_true.1 inline_tables_ok) s (List.mem_filter.2 ⟨hs, hin⟩)) hgood argv
+  · have hstd : s.standard = true := by
+      rcases hc with h | h
+      · exact h
+      · exact absurd h hin
+    have h1 := (List.all_eq_true.1 standard_tables_comparable) s (List.mem_filter.2 ⟨hs, hstd⟩)
+    simp only [Bool.and_eq_true, Bool.not_eq_true'] at h1
+    have h2 := (List.all_eq_true.1 standard_commands_totalClassExt) s (List.mem_filter.2 ⟨hs, hstd⟩)
+    exact dispatchX_total_std tool ord s h2 h1.1.2 h1.2 hgood argv
+
+/-- the quirk really occurs (and only there the TypeError): `stone 2 pyramid 2 --sparse=--` -/
+example : dispatchNamedX "cnfgen" (fun _ => 4) "formula" "stone" ["2", "pyramid", "2", "--sparse=--"] =
+    .error (.crash "TypeError") := by decide +kernel
+example : dispatchNamedX "cnfgen" (fun _ => 4) "formula" "stone" ["2", "pyramid", "2", "--sp=2"] =
+    .ok (.call ⟨"SparseStoneFormula", [.graph "dag" ["pyramid", "2"],
+      .opaque "bipartite_random_left_regular(nvertices, nstones, degree)"],
+      [("formula_class", .param "formula_class")]⟩) := by decide +kernel
+example : dispatchNamedX "cnfgen" (fun _ => 4) "formula" "and" ["2", "--", "1"] =
+    .ok (.formula 3 [[1], [2], [-3]]) := by decide +kernel
+example : dispatchNamedX "cnfgen" (fun _ => 4) "formula" "bphp" ["3", "4", "--he"] = .error .cliError := by
+  decide +kernel
+example : dispatchNamedX "cnfgen" (fun _ => 4) "formula" "bphp" ["3", "4", "-x", "-h"] = .error .helpExit := by
+  decide +kernel
+example : dispatchNamedX "cnfgen" (fun _ => 0) "formula" "tseitin" ["first", "file.gml"] =
+    .ok (.call ⟨"TseitinFormula", [.graph "simple" ["file.gml"], .none],
+      [("formula_class", .param "formula_class")]⟩) := by decide +kernel
 
 end Cnfgen.C17
